@@ -319,7 +319,8 @@ func (r *run) call(caller *frame, callpos token.Pos, fn value, args []value) val
 
 func (r *run) callSSA(caller *frame, callpos token.Pos, fn *ssa.Function, args []value, env []value) value {
 	r.depth++
-	defer func() { r.depth-- }()
+	r.stack = append(r.stack, fn)
+	defer func() { r.depth--; r.stack = r.stack[:len(r.stack)-1] }()
 	if r.depth > 400 {
 		panic(engineError{"call depth exceeded in " + fn.String()})
 	}
